@@ -1,8 +1,8 @@
 """C15 -- every equation formulation Lcapy prints is satisfied by the solution it reports.
 
 1. lake build Lcapy.Props.C15 / C15SS / C15Mesh re-proves the theorems about the executable models of
-   NodalAnalysis._make_equations / LoopAnalysis._process_loop (fix-C15-c: components identified by graph edge) /
-   StateSpaceMaker.from_circuit / from_ba_CCF, _OCF, _DCF (nodal_eqs_hold, kvl_telescopes, mesh_eqs_hold,
+   NodalAnalysis._make_equations / LoopAnalysis._process_loop (as in /repo: by node pair; and with the proposed fix-C15-c) /
+   StateSpaceMaker.from_circuit / from_ba_CCF, _OCF, _DCF (nodal_eqs_hold, kvl_telescopes, mesh_eqs_hold_partial [claimed for /repo], mesh_eqs_hold [proposed patch],
    mesh_complete, mesh_iff_laws, ss_from_circuit, ss_time_domain, ss_along_solutions, ccf_realises, ocf_realises, …);
    #print axioms audit.
 2. Correspondence: generated netlists (R, L, C, V, I, and E / G / F / H / TF / K lines; dc / Laplace with and without
@@ -397,8 +397,11 @@ def same_eq(a, b):
     return ({k: negq(v) for k, v in a[0].items()}, negq(a[1])) == (b[0], b[1])
 
 
-# model variants: the nodal model has none left (F13, C15-b, C15-g fixed in /repo); the mesh model keeps one switch for
-# the open finding C15-c: 'asis' (e0) = components identified by node names, 'patched' (e1) = by graph edge
+# model variants: the nodal model has none left (F13, C15-b, C15-g fixed in /repo).  The mesh model keeps one switch for the
+# KNOWN finding C15-c: 'asis' (pe = false) = components identified by node names = THE CODE AS IT IS IN /repo, which is what
+# the correspondence runs against; 'patched' (pe = true) = the PROPOSED patch fix-C15-c (by graph edge), computed only to
+# tell a C15-c failure from any other one.
+MESH_REPO_VARIANT = 'asis'
 MESH_VARIANTS = ['asis', 'patched']
 
 
@@ -446,6 +449,15 @@ def run(chk, replay=None):
         'transfer-function case = (domain s|z, form CCF|OCF|DCF, b, a) with degree 1-6, numeric or symbolic coefficients sampled at '
         'rational points; non-trivial = Lcapy produced the formulation and a finite exact solution; distinct by full input')
     chk.coverage['mesh_variant'] = {}
+    chk.coverage['model_mirrors'] = (
+        'the models mirror /repo HEAD: mesh analysis identifies components by node pair (variant asis, pe = false; finding '
+        'C15-c known), nodal and mesh analysis ignore mutual couplings (finding C15-k known); the correspondence runs against '
+        'these variants.  CLAIMED about the code in /repo: nodal_eqs_hold (uncoupled inductors), mesh_eqs_hold_partial (no '
+        'parallel components, uncoupled inductors), kvl_telescopes, ss_from_circuit, ss_time_domain, ss_along_solutions, '
+        'ss_transfer, ccf/ocf/dcf theorems.  About the PROPOSED patch fix-C15-c only (pe = true, not applied to /repo because '
+        'it needs a correction of lcapy/tests/test_loop_analysis.py::test_loop3): mesh_eqs_hold, mesh_complete, '
+        'mesh_complete_consistent, mesh_iff_laws.  The excluded regions are covered by the oracle on the real code, which '
+        'reports KNOWN-FINDING C15-c / C15-k.')
 
     def eval_form(coeffs, const, xs):
         """Σ c·x + const judged by Lean; returns the driver's string ('0' = holds)"""
@@ -503,8 +515,8 @@ def run(chk, replay=None):
         has_k = any(l.startswith('K') for l in net.extra)
         if model is None:
             chk.count('model', 'nodal:' + r[:40])
-            if r.startswith('error') and not has_k:
-                # the model refuses what the code accepts (coupled inductors: finding C15-k, judged by the oracle below)
+            if r.startswith('error'):
+                # the model refuses what the code accepts
                 chk.coverage['correspondence']['compared'] += 1
                 chk.coverage['correspondence']['disagreements'] += 1
                 disagreements.append({'what': 'nodal equation', 'netlist': net.lines(), 'analysis': net.model_analysis(),
@@ -695,9 +707,8 @@ def run(chk, replay=None):
             got = ({k: v for k, v in cs.items() if v != '0'}, c0)
             mforms[m] = got
             matched = None
-            for variant in MESH_VARIANTS:
-                if replies[variant][m] is not None and same_eq(replies[variant][m], got):
-                    matched = matched or variant
+            if replies[MESH_REPO_VARIANT][m] is not None and same_eq(replies[MESH_REPO_VARIANT][m], got):
+                matched = MESH_REPO_VARIANT
             if replies['asis'][m] is not None:
                 chk.coverage['correspondence']['compared'] += 1
                 if matched is None:
@@ -882,7 +893,8 @@ def run(chk, replay=None):
              ('R2', 'R', 3, 0, Fraction(7), None, None)], 'ac', Fraction(2)),
     ]
     nets = list(fixed)
-    # coupled inductors are generated once finding C15-k is listed (known: the oracle reports it; fixed: both sides refuse)
+    # coupled inductors (finding C15-k, known: nodal and mesh analysis ignore the coupling -- the model mirrors that, the
+    # oracle reports the unsatisfied equations); generated while the finding is listed
     k_listed = any(f.get('id') == 'C15-k' for f in chk.findings)
     chk.coverage['coupled_inductors_in_circuit_stream'] = k_listed
     for i, a in enumerate(plan):
